@@ -116,7 +116,13 @@ Definition is_exception (x : val) := exc_class repl_prog x ["Exception"].
 Definition shift (r : rstate) : rstate :=
   {| r_last := r_last r; r_print := r_print r; r_1 := r_last r; r_2 := r_1 r; r_3 := r_2 r; r_e := r_e r |}.
 
-(* result of one input: Some b = runsource returned b; None = an exception left runsource *)
+Definition set_e (r : rstate) (x : val) : rstate :=
+  {| r_last := r_last r; r_print := r_print r; r_1 := r_1 r; r_2 := r_2 r; r_3 := r_3 r; r_e := Some x |}.
+Definition set_print (r : rstate) (b : bool) : rstate :=
+  {| r_last := r_last r; r_print := b; r_1 := r_1 r; r_2 := r_2 r; r_3 := r_3 r; r_e := r_e r |}.
+
+(* result of one input: Some b = runsource returned b; None = an exception left runsource.
+   Only an input that was evaluated to a value shifts *1 *2 *3 (and may print). *)
 Definition step (out : out_script) (inp : input) (r : rstate) : rstate * option bool :=
   match inp with
   | IIncomplete => (r, Some true)
@@ -125,23 +131,17 @@ Definition step (out : out_script) (inp : input) (r : rstate) : rstate * option 
       if is_none v then (r1, Some false)
       else match out v with
            | None => (r1, Some false)
-           | Some y =>
-               if is_exception y
-               then ({| r_last := r_last r1; r_print := r_print r1; r_1 := r_1 r1; r_2 := r_2 r1; r_3 := r_3 r1; r_e := Some y |}, Some false)
-               else (r1, None)
+           | Some y => if is_exception y then (set_e r1 y, Some false) else (r1, None)
            end
   | ICompileError x =>
-      let err := {| r_last := r_last r; r_print := false; r_1 := r_1 r; r_2 := r_2 r; r_3 := r_3 r; r_e := Some x |} in
-      if is_syntax_family x then (shift err, Some false)
-      else if is_macro_or_require x then (err, Some false)
-      else if is_language_error x
-           then ({| r_last := r_last r; r_print := r_print r; r_1 := r_1 r; r_2 := r_2 r; r_3 := r_3 r; r_e := Some x |}, Some false)
-           else (r, None)
+      if is_syntax_family x then (set_e (set_print r false) x, Some false)
+      else if is_macro_or_require x then (set_e (set_print r false) x, Some false)
+      else if is_language_error x then (set_e r x, Some false)
+      else (r, None)
   | IRunError x _ =>
       if is_system_exit x then (r, None)
-      else if is_exception x
-           then (shift {| r_last := r_last r; r_print := false; r_1 := r_1 r; r_2 := r_2 r; r_3 := r_3 r; r_e := Some x |}, Some false)
-           else (r, None)
+      else if is_exception x then (set_e (set_print r false) x, Some false)
+      else (r, None)
   end.
 
 Fixpoint run_abstract (out : out_script) (inputs : list input) (r : rstate) : rstate :=
